@@ -15,6 +15,8 @@ TEMPLATES = {
     'closure_join': ("start: ','.{ item }+ $ ;\nitem: 'a' | 'b' ;\n", ['a', ',', 'b']),
     'named_const': ("start: x='a' y=`7` z=r $ ;\nr: 'b' ;\n", ['a', 'b']),
     'comments': ("@@comments :: /\\(\\*.*?\\*\\)/\n@@eol_comments :: /#[^\\n]*/\nstart: 'a' {'b'} $ ;\n", ['a', 'b', 'b']),
+    # punctuation tokens that are prefixes of the comment openers: a comment right after a token (no whitespace before it) is still a comment
+    'comments_punct': ("@@comments :: /\\(\\*.*?\\*\\)/\n@@eol_comments :: /#[^\\n]*/\nstart: 'f' {'(' | ')' | '*' | '#' | 'x'} $ ;\n", ['f', '(', 'x', ')']),
     'void_opt': ("start: 'a' () ['b'] 'c' $ ;\n", ['a', 'b', 'c']),
     'upper_rule_token': ("start: 'a' Tok 'c' $ ;\nTok: 'b' ;\n", ['a', 'b', 'c']),   # tokens inside an upper-case rule still skip whitespace themselves
 }
@@ -316,6 +318,13 @@ def plan(tier, seed):
         obs.append(Ob(name=f'A_buffer_comments_{nm}', factory='vt.props.c09:make_layout', spec={'template': 'comments', 'runs': runs, 'comments': True, 'sel_runs': sel_runs, 'program': 'comments', 'input': 'Buffer'},
                       params=[(f'w{i}', 0, UNI) for i in range(sum(runs))] + [('s0', first, first + 1), ('s1', 0, len(COMMENT_RUNS))],
                       budget=300 if tier == 'quick' else 1500, group='A-buffer', require_tags=('ok',)))
+    # comments that start exactly where the previous token ended (zero-width run before the comment), in front of punctuation tokens
+    for runs, sel_runs in (([0, 0, 1, 1, 0], [1, 3]),) if tier == 'quick' else (([0, 0, 1, 1, 0], [1, 3]), ([0, 0, 0, 0, 1], [2, 4]), ([1, 0, 0, 0, 0], [1, 2])):
+        for first in range(1, len(COMMENT_RUNS)):
+            nm = ''.join(map(str, runs)) + '_s' + ''.join(map(str, sel_runs)) + f'_c{first}'
+            obs.append(Ob(name=f'A_comments_punct_{nm}', factory='vt.props.c09:make_layout', spec={'template': 'comments_punct', 'runs': runs, 'comments': True, 'sel_runs': sel_runs, 'program': 'comments_punct'},
+                          params=[(f'w{i}', 0, UNI) for i in range(sum(runs))] + [('s0', first, first + 1), ('s1', 0, len(COMMENT_RUNS))],
+                          budget=300 if tier == 'quick' else 1500, group='A', require_tags=('ok',)))
     for kind in ('pattern', 'upper_rule', 'lower_rule'):
         for n in (1, 2):
             obs.append(Ob(name=f'A_noskip_{kind}_{n}', factory='vt.props.c09:make_noskip', spec={'kind': kind, 'n': n, 'program': kind}, params=[(f'w{i}', 0, UNI) for i in range(n)],
